@@ -237,6 +237,8 @@ func c09(r *core.Run) {
 	// "a one-to-one, kind- and type-respecting matching": the comparator's attribute equalities are a conjunction
 	// (shared with C04)
 	r.Under("C04.CONJ", "C09.CONJ", func() { c04Conj(r) })
+	// the high-risk counter counts what the entries call high risk: one comparison against the bound everywhere
+	thresholdAgreement(r, "C09.BOUND", "/internal/cli")
 }
 
 func c19(r *core.Run) {
